@@ -384,12 +384,12 @@ def _b_c_cubic_refine(chk):
     # must be the centred differences over (t[k+1]-t[k-1]) and (t[k+2]-t[k])
     gs = tuple(sp.Symbol(f"g{k}", real=True) for k in range(4))
     rep4 = {gs[0]: -3, gs[1]: -1, gs[2]: 2, gs[3]: 4}
-    cap, tms, sts = _scalar_run(None, rep4, gs, use_cubic=True, r=1, N=4, newton=0, time_rep=[0, 1, 3, 4])
+    cap, tms, sts = _scalar_run(None, rep4, gs, use_cubic=True, r=1, N=4, newton=0, time_rep=[0, 1, 3, 7])
     chk.count("functions partially evaluated")
     if len(cap.get("cand_times", [])) != 1:
         chk.fail("C15.c", f"{SB}::_detect_with_segment_refine[cubic state]", f"expected one hit on the interior segment, got {len(cap.get('cand_times', []))}")
     else:
-        trep = {tms[k]: sp.sympify(v) for k, v in enumerate([0, 1, 3, 4])}
+        trep = {tms[k]: sp.sympify(v) for k, v in enumerate([0, 1, 3, 7])}
         trep.update(rep4)
         th = select_minmax(S(cap["cand_times"][0]), trep)
         sst = (th - tms[1]) / (tms[2] - tms[1])
@@ -401,12 +401,12 @@ def _b_c_cubic_refine(chk):
             m0 = (sts[2, d] - sts[0, d]) / (tms[2] - tms[0]) * dtk
             m1 = (sts[3, d] - sts[1, d]) / (tms[3] - tms[1]) * dtk
             want = h00 * sts[1, d] + h10 * m0 + h01 * sts[2, d] + h11 * m1
-            tsub = {tms[k]: sp.sympify(v) for k, v in enumerate([0, 1, 3, 4])}     # concrete non-uniform grid; g and x stay symbolic
+            tsub = {tms[k]: sp.sympify(v) for k, v in enumerate([0, 1, 3, 7])}     # concrete non-uniform grid; g and x stay symbolic
             if sp.cancel(sp.together((select_minmax(S(xh[d]), trep) - want).subs(tsub))) != 0:
                 bad.append(d)
         chk.check(not bad, "C15.c", f"{SB}::_detect_with_segment_refine[cubic state]",
                   "the cubic hit state of the segment-refine detector is not the Hermite interpolant of (x_k, x_k+1) with centred slopes (x[k+1]-x[k-1])/(t[k+1]-t[k-1]) and "
-                  "(x[k+2]-x[k])/(t[k+2]-t[k]) evaluated at the same fraction as the hit time (non-uniform grid)", sample="non-uniform grid t = (0,1,3,4): xh = H(s*; x_k, x_k+1, centred slopes)")
+                  "(x[k+2]-x[k])/(t[k+2]-t[k]) evaluated at the same fraction as the hit time (non-uniform grid)", sample="non-uniform grid t = (0,1,3,7): xh = H(s*; x_k, x_k+1, centred slopes)")
 
 
 def _clamp_paths(chk):
